@@ -8,10 +8,14 @@
    Forwarding: when the slash of pending unbondings returns, the fee collector has received, per
    denom, exactly what the pending entries lost (C07_slashed_unbondings_go_to_the_fee_collector:
    fee balance + pending balances is conserved; all reachable states).
-   The redelegation half is not a theorem (partial): check_C07 evaluates it on implementation traces. *)
+   The redelegation half is FALSE of the code when a delegator redelegates the same asset into one
+   destination from two sources in one block: the two are merged into one record (keyed by
+   delegator, denom, destination, time) and a slash of either source removes f x the MERGED amount
+   from the destination position (C07_refuted_merged_redelegation, F-C07-2).  Otherwise check_C07
+   evaluates it on implementation traces (clauses 3, 4) — partial. *)
 From Coq Require Import ZArith List Bool Lia.
 From Alliance Require Import Num KMap Types Monad Model Step Spec Hoare WitnessLib.
-From Alliance.Witness Require Import F_C07_bucket.
+From Alliance.Witness Require Import F_C07_bucket F_C07_merged_redelegation.
 From Alliance.Proofs Require Import IndexSync SlashQueue FeeFlow.
 Import ListNotations.
 Open Scope Z_scope.
@@ -34,6 +38,14 @@ Proof. exact slash_callback_exact_on_unbondings. Qed.
 Print Assumptions C07_unbondings_slashed_exactly_once.
 
 (* every pending entry sits in the bucket of its own delegator and has its per-validator index key *)
+(* F-C07-2: 400 000 redelegated 11 -> 10 and 300 000 redelegated 12 -> 10 in one block; validator 11 is
+   slashed by 50 %: the destination position loses shares worth 350 000 tokens instead of 200 000.
+   History executed on the real implementation. *)
+Example C07_refuted_merged_redelegation :
+  witness_fails 7 31 ops_F_C07_merged_redelegation = true /\ witness_fails 7 1 ops_F_C07_merged_redelegation = false.
+Proof. vm_compute. split; reflexivity. Qed.
+Print Assumptions C07_refuted_merged_redelegation.
+
 (* forwarding: what the entries lose arrives, coin for coin, at the fee collector *)
 Theorem C07_slashed_unbondings_go_to_the_fee_collector : forall h v f d, let s := run init_state h in
   match slash_undelegations v f s with
